@@ -405,6 +405,72 @@ def parseDFilter : SExp → Option (DFilter Float)
   | .list [.atom "override", nu, nn, cm] => do pure (.override (← parseOptStr nu) (← parseOptStr nn) (← parseCm cm))
   | _ => none
 
+/-- `( align pNanos )` / `( alignfill pNanos linear|forward|bogus )`: fixed period, must be positive
+(`timeseries.NewFixedAlignmentPeriod` panics otherwise; the harness refuses such a case too) -/
+def parseAlign : SExp → Option (Int × Option FillMode)
+  | .list [.atom "align", .atom p] => do
+    let p ← p.toInt?
+    if p ≤ 0 then none else pure (p, none)
+  | .list [.atom "alignfill", .atom p, .atom m] => do
+    let p ← p.toInt?
+    let m ← match m with
+      | "linear" => some FillMode.linear
+      | "forward" => some FillMode.forwardFill
+      | "bogus" => some FillMode.other
+      | _ => none
+    if p ≤ 0 then none else pure (p, some m)
+  | _ => none
+
+/-- `maxCounterValue`: a decimal integer (converted with `float64(int64)`) or a `d:<bits>` float64 -/
+def parseMaxCounter (s : String) : Option Float :=
+  match s.toList with
+  | 'd' :: ':' :: r => (parseHex64 (String.ofList r)).map Float.ofBits
+  | _ => s.toInt?.map Float.ofInt
+
+def parseRXFilter (e : SExp) : Option RXFilter := do
+  let (p, m) ← parseAlign e
+  pure (.align p m)
+
+def parseDXFilter : SExp → Option (DXFilter Float)
+  | .list [.atom "delta", .atom nn, .atom mx] => do pure (.delta (← parseFlag nn) (← parseMaxCounter mx))
+  | .list [.atom "rate", .atom u, .atom ps, .atom nn, .atom mx] => do
+    pure (.rate (← strLit u) (← ps.toInt?) (← parseFlag nn) (← parseMaxCounter mx))
+  | e => do
+    let (p, m) ← parseAlign e
+    pure (.align p m)
+
+def parseRStage (e : SExp) : Option (RStage Float) :=
+  match parseRFilter e with
+  | some f => some (.plain f)
+  | none => (parseRXFilter e).map .x
+
+def parseDStage (e : SExp) : Option (DStage Float) :=
+  match parseDFilter e with
+  | some f => some (.plain f)
+  | none => (parseDXFilter e).map .x
+
+def plainRs : List (RStage Float) → Option (List (RFilter Float))
+  | [] => some []
+  | .plain f :: r => (plainRs r).map (f :: ·)
+  | .x _ :: _ => none
+
+def plainDs : List (DStage Float) → Option (List (DFilter Float))
+  | [] => some []
+  | .plain f :: r => (plainDs r).map (f :: ·)
+  | .x _ :: _ => none
+
+/-- `NewFilteredDataSource(ds, filters…)`: row-wise filters only → `.filtered ds fs` (as before); a list that contains
+a stream filter → the chain of Model/QueryExec.lean (`C10_filter_chain`: the same sequential application) -/
+def mkFilteredR (ds : RDs Float) (stages : List (RStage Float)) : RDs Float :=
+  match plainRs stages with
+  | some fs => .filtered ds fs
+  | none => chainR ds stages
+
+def mkFilteredD (ds : DDs Float) (stages : List (DStage Float)) : DDs Float :=
+  match plainDs stages with
+  | some fs => .filtered ds fs
+  | none => chainD ds stages
+
 def parseRow : SExp → Option (Row Float)
   | .list (.atom "r" :: .atom ts :: cells) => do
     let ts ← ts.toInt?
@@ -422,7 +488,7 @@ mutual
   partial def parseRDs : SExp → Option (RDs Float)
     | .list [.atom "rstatic", .list (.atom "metas" :: ms), .list (.atom "rows" :: rs)] => do
       pure (.static (← ms.mapM parseFm) (← rs.mapM parseRow))
-    | .list (.atom "rfilt" :: ds :: fs) => do pure (.filtered (← parseRDs ds) (← fs.mapM parseRFilter))
+    | .list (.atom "rfilt" :: ds :: fs) => do pure (mkFilteredR (← parseRDs ds) (← fs.mapM parseRStage))
     | .list (.atom "join" :: .atom jt :: srcs) => do pure (.join (← parseJoinType jt) (← parseRDsL srcs))
     | .list [.atom "fromds", d] => do pure (.fromDs (← parseDDs d))
     | _ => none
@@ -432,7 +498,7 @@ mutual
   partial def parseDDs : SExp → Option (DDs Float)
     | .list [.atom "dstatic", fm, .list (.atom "rows" :: rs)] => do
       pure (.static (← parseFm fm) (← rs.mapM parseRec))
-    | .list (.atom "dfilt" :: ds :: fs) => do pure (.filtered (← parseDDs ds) (← fs.mapM parseDFilter))
+    | .list (.atom "dfilt" :: ds :: fs) => do pure (mkFilteredD (← parseDDs ds) (← fs.mapM parseDStage))
     | .list (.atom "reduction" :: .atom rt :: .atom period :: afm :: fb :: srcs) => do
       let fb' ← match fb with
         | .atom "none" => some none
@@ -607,6 +673,7 @@ mutual
     | .static metas rows =>
       metas.all (fun m => m.urn != "" && m.dt.valid) && rows.all (fun r => rowOk metas r.vals) && increasing (rows.map (·.ts))
     | .filtered ds _ => inputsOkR ds
+    | .xfiltered ds _ => inputsOkR ds
     | .join _ srcs => inputsOkRL srcs
     | .fromDs d => inputsOkD d
   def inputsOkRL : RDsL Float → Bool
@@ -616,6 +683,7 @@ mutual
     | .static m rows =>
       m.urn != "" && m.dt.valid && rows.all (fun r => cellOk m r.val) && increasing (rows.map (·.ts))
     | .filtered d _ => inputsOkD d
+    | .xfiltered d _ => inputsOkD d
     | .reduction _ _ _ _ srcs => inputsOkDL srcs
     | .fromReport r _ => inputsOkR r
   def inputsOkDL : DDsL Float → Bool
@@ -635,6 +703,7 @@ mutual
       | some e => some e
       | none => if metas.isEmpty then some .staticEmpty else if hasDupUrn metas [] then some .staticDup else none
     | .filtered ds _ => inputErrR ds
+    | .xfiltered ds _ => inputErrR ds
     | .join _ srcs => inputErrRL srcs
     | .fromDs d => inputErrD d
   def inputErrRL : RDsL Float → Option PlanErr
@@ -646,6 +715,7 @@ mutual
   def inputErrD : DDs Float → Option PlanErr
     | .static m _ => fmErr m
     | .filtered d _ => inputErrD d
+    | .xfiltered d _ => inputErrD d
     | .reduction _ _ _ _ srcs => inputErrDL srcs
     | .fromReport r _ => inputErrR r
   def inputErrDL : DDsL Float → Option PlanErr
